@@ -415,3 +415,106 @@ def exposure(name_i: int, nargs: int) -> bool:
     except RPCError:
         return h.called == []
     return name in ("exposed", "exposed_async") and h.called == [name] and nargs <= 1
+
+
+class _AsyncReader:
+    """asyncio.StreamReader stand-in over the slice domain: `avail` bytes arrive, then EOF or reset."""
+
+    def __init__(self, avail, reset, log):
+        self.pos = 0
+        self.avail = avail
+        self.reset = reset
+        self.log = log
+
+    async def readexactly(self, n):
+        import asyncio
+
+        if self.pos + n > self.avail:
+            if self.reset:
+                raise ConnectionResetError("reset")
+            raise asyncio.IncompleteReadError(b"", n)
+        lo = self.pos
+        self.pos = lo + n
+        return Slice(lo, self.pos, self.log)
+
+
+def stream_recv(id0: int, s0: int, avail: int, reset: bool) -> bool:
+    """_recv_stream_message: a peer that vanishes at ANY byte offset (before, inside the header,
+    inside the body) is reported as None and never raises; an oversized header is an RPCError; a
+    complete message is returned exactly."""
+    import stepup.core.rpc as rpc
+    from stepup.core.exceptions import RPCError
+
+    log = []
+    fields = [(0, id0), (8, s0)]
+    saved = rpc.__dict__.get("int", None)
+    saved_fn = rpc._decode_header
+    rpc.int = _fake_int(fields, log)
+    rpc._decode_header = _DECODE_NF
+    try:
+        reader = _AsyncReader(avail, reset, log)
+        try:
+            msg = _drive(rpc._recv_stream_message(reader))
+        except RPCError:
+            return avail >= 16 and s0 > rpc.MAX_BODY_SIZE and not log
+        except BaseException:  # noqa: BLE001 - anything else escaping is a violation
+            return False
+        if avail >= 16 and s0 > rpc.MAX_BODY_SIZE:
+            return False
+        if avail < 16 + s0:
+            return msg is None and not log
+        if msg is None:
+            return False
+        got_id, body = msg
+        if got_id != id0:
+            return False
+        if s0 == 0:
+            return body is None and not log
+        return isinstance(body, Slice) and body.lo == 16 and body.hi == 16 + s0 and not log
+    finally:
+        rpc._decode_header = saved_fn
+        if saved is None:
+            del rpc.int
+        else:
+            rpc.int = saved
+
+
+class _Boom:
+    def __init__(self, exc):
+        self.exc = exc
+
+    def proc(self):
+        raise self.exc
+
+
+def capture_failure(kind: int, is_async: bool) -> bool:
+    """_call_and_capture_failure never raises: whatever ends the procedure -- an ordinary error, a
+    usage error, a cancellation, SystemExit, KeyboardInterrupt -- becomes a RemoteFailure reply, so
+    a call that was started is always answered."""
+    import asyncio
+    import logging
+
+    import stepup.core.rpc as rpc
+    from stepup.core.exceptions import GraphError
+
+    excs = [ValueError("v"), GraphError("g"), asyncio.CancelledError(), KeyboardInterrupt(), SystemExit(3), GeneratorExit(), RuntimeError("r"), MemoryError()]
+    exc = _pick(excs, kind)
+
+    class H:
+        @rpc.allow_rpc
+        def proc(self):
+            raise exc
+
+        @rpc.allow_rpc
+        async def aproc(self):
+            raise exc
+
+    logging.disable(logging.CRITICAL)
+    try:
+        try:
+            r = _drive(rpc._call_and_capture_failure(H(), rpc.RPCCall("aproc" if is_async else "proc")))
+        except BaseException:  # noqa: BLE001
+            return False
+        return isinstance(r, rpc.RemoteFailure) and r.qualname == type(exc).__qualname__ and r.usage == isinstance(exc, GraphError)
+    finally:
+        logging.disable(logging.NOTSET)
